@@ -5,6 +5,7 @@ import (
 	"encoding/hex"
 	"fmt"
 	"math/big"
+	"strconv"
 	"strings"
 	"sync"
 	"sync/atomic"
@@ -45,6 +46,9 @@ const c15UntrackedPair = "ATOM/USD"
 
 // shWithUntracked (used by C18): signed(p) plus a price for the untracked pair. Not part of C15's matrix.
 const shWithUntracked = 100
+
+// shUntrackedFew (used by C18): signed, prices the untracked pair but not every tracked one (as many ids as the chain tracks).
+const shUntrackedFew = 101
 
 type c15Set struct {
 	name   string
@@ -99,10 +103,11 @@ const (
 	shNonCommitSigNoExt
 	shCommitExtNoSig
 	shSignedGarbage
+	shSignedThenForged
 	numShapes
 )
 
-var c15ShapeNames = []string{"absent", "signed(p)", "signed(q)", "signed-noBTC", "signed-noTimestamp", "bad-signature", "other-chain-id", "other-height", "other-round", "listed-twice", "non-commit-empty", "non-commit-with-extension", "non-commit-extension-unsigned", "non-commit-signature-only", "commit-extension-unsigned", "signed-undecodable-extension"}
+var c15ShapeNames = []string{"absent", "signed(p)", "signed(q)", "signed-noBTC", "signed-noTimestamp", "bad-signature", "other-chain-id", "other-height", "other-round", "listed-twice", "non-commit-empty", "non-commit-with-extension", "non-commit-extension-unsigned", "non-commit-signature-only", "commit-extension-unsigned", "signed-undecodable-extension", "signed(p)-then-a-forged-duplicate"}
 
 type c15State struct {
 	ctx    sdk.Context
@@ -270,10 +275,33 @@ type c15Vote struct {
 // build returns the commit bytes and, per pair, the set of validator key names that (by the
 // harness's own bookkeeping) supplied a price under a correct commit-flag signature.
 func (y *c15Sys) build(s *c15State, votes []c15Vote, height uint64, ts int64) ([]byte, map[string]map[string]bool) {
+	bz, good, _ := y.buildV(s, votes, height, ts)
+	return bz, good
+}
+
+// buildV additionally returns, per pair, the set of price values that were supplied under a valid
+// signature (a stake-weighted median is always one of its inputs).
+func (y *c15Sys) buildV(s *c15State, votes []c15Vote, height uint64, ts int64) ([]byte, map[string]map[string]bool, map[string]map[string]bool) {
 	eci := cometabci.ExtendedCommitInfo{Round: c15Round}
 	good := map[string]map[string]bool{}
+	vals := map[string]map[string]bool{}
 	for _, p := range c15Pairs {
 		good[p] = map[string]bool{}
+		vals[p] = map[string]bool{}
+	}
+	priced := func(pairs []string, price int64) {
+		for _, p := range pairs {
+			v := price
+			if p == "ETH/USD" {
+				v = price / 10
+			}
+			if p == "TIMESTAMP/NANOSECOND" {
+				v = ts
+			}
+			if _, ok := vals[p]; ok {
+				vals[p][strconv.FormatInt(v, 10)] = true
+			}
+		}
 	}
 	signH := int64(height) - 1
 	for _, v := range votes {
@@ -312,25 +340,45 @@ func (y *c15Sys) build(s *c15State, votes []c15Vote, height uint64, ts int64) ([
 				entry(e, y.sign(v.key, c15ChainID, signH, c15Round, e), cmtproto.BlockIDFlagCommit)
 			}
 			mark(c15Pairs)
+			priced(c15Pairs, 50000)
+		case shSignedThenForged:
+			// a genuine vote, then a second entry for the same validator with other prices and somebody
+			// else's signature: the forged entry must contribute nothing, to the quorum or to the value
+			e := y.ext(s, 50000, c15Pairs, ts)
+			entry(e, y.sign(v.key, c15ChainID, signH, c15Round, e), cmtproto.BlockIDFlagCommit)
+			f := y.ext(s, 90000, c15Pairs, ts)
+			entry(f, y.sign("forger", c15ChainID, signH, c15Round, f), cmtproto.BlockIDFlagCommit)
+			mark(c15Pairs)
+			priced(c15Pairs, 50000)
 		case shWithUntracked:
 			ps := append(append([]string{}, c15Pairs...), c15UntrackedPair)
 			e := y.ext(s, 50000, ps, ts)
 			entry(e, y.sign(v.key, c15ChainID, signH, c15Round, e), cmtproto.BlockIDFlagCommit)
 			mark(c15Pairs)
+			priced(c15Pairs, 50000)
+		case shUntrackedFew:
+			ps := []string{"BTC/USD", c15UntrackedPair, "TIMESTAMP/NANOSECOND"}
+			e := y.ext(s, 50000, ps, ts)
+			entry(e, y.sign(v.key, c15ChainID, signH, c15Round, e), cmtproto.BlockIDFlagCommit)
+			mark([]string{"BTC/USD", "TIMESTAMP/NANOSECOND"})
+			priced(ps, 50000)
 		case shPriceQ:
 			e := y.ext(s, 70000, c15Pairs, ts)
 			entry(e, y.sign(v.key, c15ChainID, signH, c15Round, e), cmtproto.BlockIDFlagCommit)
 			mark(c15Pairs)
+			priced(c15Pairs, 70000)
 		case shNoBTC:
 			ps := []string{"ETH/USD", "TIMESTAMP/NANOSECOND"}
 			e := y.ext(s, 50000, ps, ts)
 			entry(e, y.sign(v.key, c15ChainID, signH, c15Round, e), cmtproto.BlockIDFlagCommit)
 			mark(ps)
+			priced(ps, 50000)
 		case shNoTimestamp:
 			ps := []string{"BTC/USD", "ETH/USD"}
 			e := y.ext(s, 50000, ps, ts)
 			entry(e, y.sign(v.key, c15ChainID, signH, c15Round, e), cmtproto.BlockIDFlagCommit)
 			mark(ps)
+			priced(ps, 50000)
 		case shBadSig:
 			e := y.ext(s, 90000, c15Pairs, ts)
 			entry(e, y.sign("forger", c15ChainID, signH, c15Round, e), cmtproto.BlockIDFlagCommit)
@@ -364,7 +412,7 @@ func (y *c15Sys) build(s *c15State, votes []c15Vote, height uint64, ts int64) ([
 	if err != nil {
 		panic(err)
 	}
-	return bz, good
+	return bz, good, vals
 }
 
 func ed25519PubAddr(keyName string) []byte {
@@ -394,7 +442,7 @@ func (s *c15State) prices(ctx sdk.Context) map[string]c15Price {
 
 // update executes one MsgUpdateOracle on ctx (a branch) and judges it. Returns whether it was accepted.
 func (y *c15Sys) update(s *c15State, ctx sdk.Context, sender string, votes []c15Vote, height uint64, ts int64, label string) (bool, bool, *engine.Violation) {
-	data, good := y.build(s, votes, height, ts)
+	data, good, vals := y.buildV(s, votes, height, ts)
 	before := s.prices(ctx)
 	d0 := s.w.Digest(ctx)
 	res := s.w.Deliver(ctx, opchildtypes.NewMsgUpdateOracle(world.Addr(sender).String(), height, data))
@@ -449,6 +497,9 @@ func (y *c15Sys) update(s *c15State, ctx sdk.Context, sender string, votes []c15
 		}
 		if 3*pw == 2*set.total() || 3*(pw-1) < 2*set.total() {
 			y.atLine.Add(1)
+		}
+		if a.has && a.price != b.price && !vals[p][a.price] {
+			return true, true, tagged(viol("only-validly-signed-prices-count", "%s: %s is now %s, a value no validator supplied under a valid signature (supplied: %v)", label, p, a.price, vals[p]), "pair", p)
 		}
 		if b.has && !a.ts.After(b.ts) {
 			return true, true, tagged(viol("timestamp-strictly-increases", "%s: %s timestamp %s -> %s", label, p, b.ts, a.ts), "pair", p)
